@@ -280,6 +280,10 @@ def run_check(pid: str, tier: str, seed: int, shards: Optional[int] = None,
     os.makedirs(work, exist_ok=True)
     os.makedirs(os.path.join(VERIF, 'evidence'), exist_ok=True)
 
+    # third-party helper for the ambient contracts: a fresh restore holds committed files only
+    if not os.path.isdir(os.path.join(VERIF, '.deps', 'icontract')):
+        subprocess.run([os.path.join(VERIF, 'setup.sh')], cwd=VERIF, stdout=subprocess.DEVNULL, stderr=subprocess.DEVNULL)
+
     replay_case = None
     if replay_path:
         with open(replay_path) as f:
